@@ -57,7 +57,14 @@ func PermissionedProxy(validPerms, defaultPerms []Permission, in interface{}, ou
 		fn := ra.MethodByName(field.Name)
 
 		rint.Field(f).Set(reflect.MakeFunc(field.Type, func(args []reflect.Value) (results []reflect.Value) {
-			ctx := args[0].Interface().(context.Context)
+			// a method without a leading context carries no attached permissions:
+			// the defaults decide
+			ctx := context.Background()
+			if len(args) > 0 {
+				if actx, ok := args[0].Interface().(context.Context); ok && actx != nil {
+					ctx = actx
+				}
+			}
 			if HasPerm(ctx, defaultPerms, requiredPerm) {
 				return fn.Call(args)
 			}
